@@ -188,6 +188,40 @@ theorem first_dots_shortest (mt : Meta) (e : String) (p : V) (k : Nat) (ps gs : 
       have := hord a (by simp)
       simp at this; omega
 
+/-! ### the elements an elision stood for reappear, complete, in order, unchanged -/
+
+theorem replaceSeq_cons (mt : Meta) (assoc : List (Nat × Nat)) (e : String) (p : V) (ps : List V) (d : Data) (fb : Bool) :
+    replaceSeq mt assoc e (p :: ps) d fb =
+      match dotsKeyOf e p with
+      | some k =>
+          if !runFits e (((assocLook assoc k).bind d.lookDots).getD []) then
+            .error (.err s!"cannot reproduce elided values in a list of {e}")
+          else
+            (replaceSeq mt assoc e ps d ((assocLook assoc k).bind d.lookDots).isSome).bind (fun r =>
+              .ok ((((assocLook assoc k).bind d.lookDots).getD []) ++ r.1, true))
+      | none =>
+          (replaceV mt assoc p d fb).bind (fun x =>
+            if !fits x p then .error (.err s!"cannot use {x.tyOf} as {p.tyOf}")
+            else (replaceSeq mt assoc e ps d fb).bind (fun r => .ok (x :: r.1, r.2))) := by
+  rw [replaceSeq.eq_def]
+  rfl
+
+/-- **Reproduction.** Where the '+' pattern has an elision associated with an elision `k` of the
+'-' pattern, the generated list contains, at that place, exactly the run recorded for `k` by the
+matcher — the original elements themselves (same identities), all of them, in their order —
+followed by whatever the rest of the '+' list generates. -/
+theorem dots_reproduced (mt : Meta) (assoc : List (Nat × Nat)) (e : String) (p : V) (k' k : Nat)
+    (ps : List V) (d : Data) (fb : Bool) (run rest : List V) (b : Bool)
+    (hk : dotsKeyOf e p = some k') (ha : assocLook assoc k' = some k) (hr : d.lookDots k = some run)
+    (hf : runFits e run = true) (hrest : replaceSeq mt assoc e ps d true = .ok (rest, b)) :
+    replaceSeq mt assoc e (p :: ps) d fb = .ok (run ++ rest, true) := by
+  rw [replaceSeq_cons]
+  simp [hk, ha, hr, hf, hrest, Except.bind]
+
+/-- what the matcher records for an elision is the run it skipped -/
+theorem run_recorded (d : Data) (k : Nat) (run : List V) : (d.pushDots k run).lookDots k = some run := by
+  simp [Data.pushDots, Data.lookDots]
+
 /-! ### the behaviour before the `fix:` commit, refuted -/
 
 /-- the list matcher as it was: each elision commits to the first start at which the *next
